@@ -35,6 +35,35 @@ PROPS = {
         "assumptions": ["fault model of the reader: the stream fails (error or clean truncation) at a byte offset; fh.Close() errors inside Unpack cannot be injected through an io.Reader and are outside the property's fault model"],
         "explanation": "Unpack part: C12_unpack_ok_complete (a run that reports success did everything the fault-free run does, for every fault position), C12_unpack_header_fault_reported, C12_unpack_body_fault_reported, C12_fault_never_illegal / C12_illegal_has_culprit (policy rejections are distinguishable and have a culprit entry). Tie: 'unpack-faults' lane cuts the tar stream at every position (mapped to the model's fault by decoding with archive/tar) and compares full filesystem dumps; gzip-level read errors/truncations are judged by the oracle (success => fully materialised).",
     },
+    "C06": {
+        "lanes": [
+            {"lane": "addr", "quick": 6000, "thorough": 150000},
+            {"lane": "resolve", "quick": 800, "thorough": 20000},
+        ],
+        "trusted_base": [STDLIB, "net/url, terraform-registry-address, terraform-svchost (IDNA) and go-versions are parameters: on the lane the model receives the real library's answers as an oracle table for exactly the strings it asks about; URL printing (URL.String) is not modelled, so the print/parse round trip of remote addresses is established by the lane's oracle on real values, not by a theorem"],
+        "assumptions": ["open findings F17, F18, F33-F36 (sub-paths that URL escaping rewrites, RawPath or fragment or trailing-slash package path combined with a sub-path, constructor inputs the parsers never produce, '@'/newline in a final registry sub-path) are reported as KNOWN-FINDING by mechanism"],
+        "explanation": "C06_local_roundtrip, C06_local_resolve_canonical / _roundtrip (the repaired local resolution always yields a canonical, re-parseable local address: F16), C06_subpath_split_roundtrip_partial / _url (printing pkg//sub?query splits back; counterexamples C06_cex_split_* for the excluded shapes), C06_normalize_idem. Tie: 'addr' lane compares ParseRemoteSource / MakeRemoteSource / ParseLocalSource / ValidSubPath with the model (front end + URL record from the real net/url) and applies the round-trip oracle Parse(String(x)) == x to every accepted and every derived value (relative resolution, Versioned, FinalSourceAddr, SourceAddr), plus 'equal iff prints the same'.",
+    },
+    "C07": {
+        "lanes": [
+            {"lane": "addr", "quick": 6000, "thorough": 150000},
+        ],
+        "trusted_base": ["net/url is a parameter of the model (every policy check is made on what the URL parser returned, so soundness holds for ANY parser function)", "tables regenerated from the source on every run: source types, git schemes and query keys, archive values and suffixes, shorthand prefixes, whether MakeRemoteSource checks user info (Generated/Remote.lean)"],
+        "assumptions": ["completeness ('every documented-valid address is accepted') is proved at the level of the URL record (C07_complete_partial); that url.Parse produces such a record for the documented grammar is checked by the lane's valid-grammar stream"],
+        "explanation": "C07_sound_parse (for any URL parser and any string, an accepted address satisfies the declarative Policy and carries no user info), C07_sound_make (constructor route), C07_case (type and scheme are lower-cased before lookup), C07_complete_partial / C07_complete_parse_partial, C07_front_shorthand (github.com / gitlab.com expansion). Tie: 'addr' lane: field-wise comparison of accepted values with the model + independent Go policy predicate on every accepted value of every route.",
+    },
+    "C19": {
+        "lanes": [
+            {"lane": "robust", "quick": 240, "thorough": 4000},
+            {"lane": "ignore", "quick": 2000, "thorough": 40000},
+            {"lane": "addr", "quick": 3000, "thorough": 50000},
+            {"lane": "unpack", "quick": 1500, "thorough": 30000},
+            {"lane": "bundle", "quick": 1500, "thorough": 30000},
+        ],
+        "trusted_base": [STDLIB, FSMODEL, "stack exhaustion and blocking system calls are runtime events the model cannot exhibit: the model shows the divergence (fuel) or the open of a non-regular file, the watched-subprocess lane shows the crash or hang (partial)"],
+        "assumptions": ["open findings F25 (link cycle outside the tree, dereferencing), F26 (dereferenced directory containing itself), F27 (dereferenced link to a fifo) are reported as KNOWN-FINDING"],
+        "explanation": "C19_split_idem (the 'post-split registry address still has subdir' panic is unreachable), C19_normalize_valid / C19_joinSubPath_valid / C19_finalSourceSub_valid (sub-paths stored in addresses are always valid, so the panicking SourceAddr is never reached with an invalid one), C12/C15 loop theorems give termination of Unpack (one step per entry), C14_terminates for the builder; parsing of rule files is total in the model (readRules has no partial operation after the F7 repair). Tie: all lanes report panics/timeouts; the 'robust' lane runs each hostile case (link cycles, fifos, mutated tar streams with repaired checksums, mutated manifests, mutated address strings) in a watched worker process.",
+    },
     "C08": {
         "lanes": [
             {"lane": "builder", "quick": 1500, "thorough": 40000},
